@@ -13,6 +13,7 @@ import (
 	"os"
 	"sort"
 	"strings"
+	"time"
 
 	"github.com/6tail/lunar-go/calendar"
 )
@@ -256,6 +257,21 @@ func main() {
 		os.Exit(2)
 	}
 	c.open()
+	// A call that panics (and is recovered by a driver) or returns while the library's year-cache lock is held
+	// blocks every later call for ever.  That is C09's business (c09total / c09sched report it as an observation);
+	// every other driver just must not hang for an hour: give up when the lock has been held for a minute.
+	go func() {
+		stuck := 0
+		for {
+			time.Sleep(2500 * time.Millisecond)
+			if calendar.VerifLockFree() {
+				stuck = 0
+			} else if stuck++; stuck >= 24 {
+				fmt.Fprintln(os.Stderr, "LZ-LOCK-STUCK: the year-cache lock has been held for 60 s (a call panicked or returned with the lock held); driver gives up")
+				os.Exit(3)
+			}
+		}
+	}()
 	f(c)
 	c.close()
 	fmt.Printf("LZ-DONE cmd=%s shard=%d/%d lines=%d chunks=%d\n", cmd, c.shard, c.nshard, c.lines, c.chunk+1)
